@@ -56,6 +56,11 @@ type C15Case struct {
 	Walker  string   `json:"walker,omitempty"`   // v1-writecar: "skip1" = WriteCarWithWalker with a walk func dropping the links to node 1
 	Chooser bool     `json:"chooser,omitempty"`  // v2: WithTraversalPrototypeChooser(dag-pb aware chooser)
 	Prefill bool     `json:"prefill,omitempty"`  // v2-tofile: the destination already exists and is longer than the result
+	// size classes (c15_m5.go)
+	Big      int `json:"big,omitempty"`      // k>0: node k-1 is padded so that its section (CID bytes + data) has exactly Sect bytes
+	Sect     int `json:"sect,omitempty"`     // section length of the padded node
+	IdentLen int `json:"identlen,omitempty"` // identity-CID leaf: length of its data (0 = the 3-byte default); with N=1 the leaf is the only node
+	Dup0     int `json:"dup0,omitempty"`     // root module: that many further Dags / roots at node 0 (before the Root2 one)
 }
 
 func (cs C15Case) leafKind() string {
@@ -139,7 +144,7 @@ func c15Build(cs C15Case) *c15Dag {
 			}
 		}
 		special := ""
-		if i == cs.N-1 && cs.N > 1 {
+		if i == cs.N-1 && (cs.N > 1 || (kind == "ident" && cs.IdentLen > 0)) {
 			special = kind
 		}
 		switch special {
@@ -149,10 +154,17 @@ func c15Build(cs C15Case) *c15Dag {
 			d.data[i] = enc(cs.N-2, nil)
 		case "ident":
 			d.data[i] = []byte{'i', 'd', byte(i)}
+			if cs.IdentLen > 0 {
+				d.data[i] = c15Fill(i, cs.IdentLen)
+			}
 		case "raw0":
 			d.data[i] = []byte{}
 		default:
 			d.data[i] = enc(i, links)
+		}
+		if cs.Big == i+1 {
+			// size class: this node's section has exactly cs.Sect bytes (the generator emits reachable lengths only)
+			d.data[i] = c15SizedData(cs, special, i, links)
 		}
 		switch {
 		case special == "ident":
@@ -455,7 +467,7 @@ var c15RefCaches sync.Map // worker scratch dir (one goroutine each) -> *c15RefC
 func c15CachedReference(x *kit.Ctx, ctx context.Context, d *c15Dag, cs C15Case, dags []c15DagSpec, once bool, budget int64, shared, typed bool) c15Ref {
 	v, _ := c15RefCaches.LoadOrStore(x.Dir, &c15RefCache{})
 	c := v.(*c15RefCache)
-	dagKey := fmt.Sprintf("%d%v|%s|%s|%d", cs.N, cs.Mult, cs.Codec, cs.leafKind(), cs.Missing)
+	dagKey := fmt.Sprintf("%d%v|%s|%s|%d|%d|%d|%d", cs.N, cs.Mult, cs.Codec, cs.leafKind(), cs.Missing, cs.Big, cs.Sect, cs.IdentLen)
 	if c.dag != dagKey {
 		c.dag, c.m = dagKey, map[string]c15Ref{}
 	}
@@ -547,6 +559,9 @@ func runC15(c any, x *kit.Ctx) {
 
 	// the Dags / roots of the case
 	dags := []c15DagSpec{{0, cs.Sel}}
+	for k := 0; k < cs.Dup0; k++ {
+		dags = append(dags, c15DagSpec{0, cs.Sel})
+	}
 	if cs.Root2 > 0 {
 		s2 := cs.Sel2
 		if s2 == "" {
@@ -1018,8 +1033,14 @@ func runC15(c any, x *kit.Ctx) {
 			repeated = true
 		}
 	}
-	if repeated || cs.N >= 3 {
+	if repeated || cs.N >= 3 || cs.Dup0 > 0 || cs.IdentLen > 0 {
 		x.Nontrivial(stateKey)
+	}
+	if cs.Big > 0 {
+		x.Count("size-class-section-cases", 1)
+	}
+	if cs.IdentLen > 0 {
+		x.Count("size-class-header-cases", 1)
 	}
 }
 
@@ -1363,6 +1384,8 @@ func genC15(tier string, emit func(any)) {
 			}
 		}
 	}
+	// size classes: section lengths and header lengths across the varint width boundaries (c15_m5.go)
+	genC15Sized(tier, emit)
 }
 
 func init() {
@@ -1378,10 +1401,17 @@ func init() {
 			"core matrix on all DAGs up to N nodes, added dimensions fully crossed up to N-1 nodes and as a reduced matrix on the N-node DAGs (N=5: only on the 2047 DAGs whose links all have the same multiplicity; see genC15); " +
 			"oracle: (1) independent log of the loads of the writing pass: output blocks = first-visit order of the log, each once, bytes intact; (2) the set of nodes loaded equals that of a reference ipld-prime walk run without go-car (same selector, link-visit-once, budget; number and order of the store reads are recorded, not asserted), an error is legal only where a reference walk fails too (the loads before the refusal are recorded, not asserted), ErrSizeMismatch never; " +
 			"(3) hand model from the adjacency lists for explore-all / first-field / merkledag walks: set of output blocks = reachable set; (4) announced sizes = bytes written (DataSize, Prepare().Size(), WriteTo's count also on error, TraverseV1's count on success), header roots = the distinct Dag roots, Prepare().Header()/Cids() = header/sections written, Dump = Write, every callback call's offset/size/data = those of the section of its block and every section is reported to every callback, index codec = requested, index = sections; " +
-			"non-trivial = DAG with >= 3 nodes or a repeated link",
+			"size classes (all blocks of the matrix above are 3..~400 bytes, its headers 58..~100 bytes; explore-all selector, no budget): " +
+			"(A) section length (CID bytes + data) of one padded node = every value of B-40..B+40 for each boundary B of the varint width of the length prefix that a legal section reaches (2^7, 2^14, 2^21) x the padded node is the root / the middle / the last block of a 3-node DAG {fan, chain, diamond} x {dag-cbor/CIDv1 36-byte CIDs, dag-pb/CIDv0 34-byte CIDs} x last node {same codec, raw} " +
+			"x every entry point {WriteCar; SelectiveCar.Write link-visit-once on/off; Prepare+Dump link-visit-once on/off x 1/2 callbacks; 3 v2 writers x {default, paddings+sorted index, no index} (thorough: x AllowDuplicatePuts)}; reduced matrix at 2^21 (2 MiB blocks): the fan DAG with {dag-cbor + raw last node, dag-pb} in every configuration (quick tier: one configuration per entry point, 6), the other shapes / codec variants in the thorough tier only, one configuration per entry point; lengths that no encoding of the node reaches (a dag-pb leaf at the width steps of its Data length) are skipped; " +
+			"(B) header body length = every value of B-40..B+40 for B = 2^7, 2^14: root module {WriteCar, Write, Prepare+Dump as above} with 1..~420 Dags at the root of a 2-node DAG plus one Dag at an identity-CID leaf of 1..64 data bytes (dag-cbor and dag-pb), and every entry point (root module and v2) on an identity-CID block of 1..16400 bytes as the only node and root; " +
+			"the margin 40 exceeds the longest CID (36), so that a rule using the width of the data length, or of the CID-less length, instead of CID + data is inside the sweep; (A) and (B) are not crossed with each other nor with the selector / budget / missing-node dimensions; " +
+			"non-trivial = DAG with >= 3 nodes or a repeated link, or a size-class case",
 		Bound: func(tier string) map[string]any {
 			maxN, fullN := c15Tiers(tier)
-			return map[string]any{"nodes": maxN, "nodes_full_cross_of_added_dimensions": fullN, "link_multiplicity": 2, "selectors": 5, "writers": 7, "node_codecs": 2, "leaf_kinds": 5, "link_budgets": []any{"none", 0, 1, 2}}
+			return map[string]any{"nodes": maxN, "nodes_full_cross_of_added_dimensions": fullN, "link_multiplicity": 2, "selectors": 5, "writers": 7, "node_codecs": 2, "leaf_kinds": 5, "link_budgets": []any{"none", 0, 1, 2},
+				"section_length_boundaries": c15SectBoundaries, "header_length_boundaries": c15HeaderBoundaries, "length_margin": c15Margin,
+				"largest_block_bytes": 1<<21 + c15Margin, "largest_root_count": (1<<14+c15Margin)/39 + 2, "not_explored": "section length 2^28 (above the 32 MiB go-car's readers accept), header length 2^21 (~51000 roots)"}
 		},
 		Assumptions: []string{
 			"hand-written dag-cbor and dag-pb encoders",
@@ -1391,6 +1421,7 @@ func init() {
 			"identity-CID blocks may or may not appear in the index written by the v2 traversal writers",
 			"depth-limited and first-field selectors on dag-pb count data-model steps (Links/index/Hash): limits 4 and 7 are used for one and two link levels",
 			"root module, several Dags with MaxTraversalLinks: one budget per Dag and one budget for the whole car are both accepted (two reference walks)",
+			"size classes: padded nodes are a dag-cbor map with a byte-string field, a dag-pb node with a longer Data field, or a raw block; the identity-CID root of the header sweep is served by the store like any other block",
 			"not asserted, recorded as beyond-statement outcomes: the exact sequence of store reads (repeats, order across Dags), the loads preceding a legal refusal, TraverseV1's count when it fails, a root shared by several Dags listed once or per Dag and the order of the roots, the number and order of the calls of a block callback",
 		},
 	})
